@@ -164,7 +164,10 @@ def run(ctx):
 
     # ------------------------------------------------------------------ R3 commit is what publishes
     scommit = P.fn("Session::commit")
-    Wc, _ = E.closure_sets([scommit])
+    undo = {P.fn("LpgStore::discard_uncommitted_versions").id}
+    Wc = set()
+    for fid in P.reach([scommit], edge_filter=lambda x, y: y not in undo):
+        Wc |= E.writes_own(P.fns[fid])
     restamps = any(c[0] == common.LPG and common.LPG_CELLS.get(c[1]) == "versioned" for c in Wc)
     vis = P.fn("VersionInfo::is_visible_to")
     _, Rv = E.closure_sets([vis])
